@@ -101,6 +101,10 @@ pub(crate) struct CoreInner {
 	/// memtable truncate each other's table file and install it twice.
 	pub(crate) flush_lock: parking_lot::Mutex<()>,
 
+	/// Held for the whole of one compaction round. A restore holds it and
+	/// `flush_lock` while it swaps the state.
+	pub(crate) compaction_lock: parking_lot::Mutex<()>,
+
 	/// The active memtable (write buffer) that receives all new writes.
 	///
 	/// In LSM trees, all writes first go to an in-memory structure for fast
@@ -217,6 +221,7 @@ impl CoreInner {
 
 		Ok(Self {
 			flush_lock: parking_lot::Mutex::new(()),
+			compaction_lock: parking_lot::Mutex::new(()),
 			opts,
 			active_memtable,
 			immutable_memtables,
@@ -947,6 +952,7 @@ impl CompactionOperations for CoreInner {
 
 		// Execute compaction according to the chosen strategy
 		let compactor = Compactor::new(options, strategy);
+		let _one_compaction = self.compaction_lock.lock();
 		compactor.compact()?;
 
 		// // Clean deleted versions from versioned index after compaction
@@ -1741,6 +1747,13 @@ impl Tree {
 		// are waited for: they belong to the timeline the restore discards, and
 		// must not land in the restored state afterwards.
 		let _write_guard = self.core.commit_pipeline.lock_writes();
+
+		// A flush or a compaction round under way finishes first, and none starts
+		// until the restore is done: one that went on across the restore installed
+		// its table of the discarded timeline into the restored manifest, and
+		// removed its input tables by name - by then the restored ones.
+		let _no_flush = self.core.inner.flush_lock.lock();
+		let _no_compaction = self.core.inner.compaction_lock.lock();
 
 		// Step 1: Restore files from checkpoint
 		let checkpoint = DatabaseCheckpoint::new(Arc::clone(&self.core.inner));
